@@ -1,5 +1,6 @@
 import FerrousSpec.Model.Aof
 import FerrousSpec.Proofs.AofNorm
+import FerrousSpec.Proofs.AofFrames
 import FerrousSpec.Proofs.Decimal
 set_option linter.unusedSimpArgs false
 set_option linter.unusedVariables false
@@ -13,6 +14,8 @@ def normStore (s : Store) : Store := s.map normDb
 /-- the two servers hold the same keys, in the same order, with the same values, and a key has a deadline on one
     side iff it has one on the other — in every database -/
 def Agree (s1 s2 : Store) : Prop := normStore s1 = normStore s2
+
+instance (s1 s2 : Store) : Decidable (Agree s1 s2) := inferInstanceAs (Decidable (normStore s1 = normStore s2))
 
 theorem Agree.refl (s : Store) : Agree s s := rfl
 theorem Agree.symm {s1 s2 : Store} (h : Agree s1 s2) : Agree s2 s1 := Eq.symm h
@@ -120,7 +123,7 @@ theorem step_sim (q : Quirks) (s1 s2 : Store) (hA : Agree s1 s2) (i now1 now2 : 
 /-! ## Entries of the log and what replaying them does -/
 
 theorem nameOf_selectCmd (d : Nat) : nameOf (selectCmd d) = "SELECT" := by
-  unfold selectCmd nameOf
+  simp only [selectCmd, nameOf]
   decide
 
 theorem selTarget_selectCmd (cur d : Nat) (hd : d < 16) : selTarget cur (selectCmd d) = d := by
@@ -128,7 +131,9 @@ theorem selTarget_selectCmd (cur d : Nat) (hd : d < 16) : selTarget cur (selectC
   simp [parseU64_natDigits d (by omega), hd]
 
 theorem nameOf_popCmd (left : Bool) (key : Bytes) : nameOf (popCmd left key) = if left then "LPOP" else "RPOP" := by
-  cases left <;> (unfold popCmd nameOf; decide)
+  cases left
+  · simp only [popCmd, nameOf, Bool.false_eq_true, if_false]; decide
+  · simp only [popCmd, nameOf, if_true]; decide
 
 theorem unwrap_of_name_ne (raw : List Bytes) (h : nameOf raw ≠ "EVAL") : unwrap raw = none := by
   unfold unwrap; simp [h]
@@ -173,7 +178,8 @@ theorem replay_entries_sim (q : Quirks) (cfg : Cfg) (st : LogSt) (d : Nat) (hd :
       obtain ⟨h1, h2⟩ := hes
       simp only [quietReplay, Bool.and_true, Bool.and_eq_true] at hqR
       simp only [replayFrom, List.foldl_cons, List.foldl_nil]
-      rw [h1, h2] at hqR ⊢
+      rw [h1] at hqR
+      rw [h1, h2]
       rw [execRaw_select q cR e1.now e1.obs _ (nameOf_selectCmd d), selTarget_selectCmd _ d hd] at hqR ⊢
       rw [execRaw_not_select q _ e2.now e2.obs c hns]
       have hq2 := quietStep_eq hqR.2
@@ -207,5 +213,192 @@ theorem replay_entries_sim (q : Quirks) (cfg : Cfg) (st : LogSt) (d : Nat) (hd :
       · rfl
       · rw [hfile, hcur]
     · simp at hes
+
+/-! ## One event, then a whole history -/
+
+/-- what the induction carries: the stores agree, and the log's tracking state describes the two connections -/
+structure Inv (cL : Conn) (st : LogSt) (cR : Conn) : Prop where
+  agree : Agree cL.store cR.store
+  conn : st.conn = cL.cur
+  file : st.file = cR.cur
+  lt : cL.cur < 16
+
+theorem selTarget_lt (cur : Nat) (raw : List Bytes) (h : cur < 16) : selTarget cur raw < 16 := by
+  unfold selTarget
+  repeat' split
+  all_goals first | assumption | omega
+
+theorem map_eq_nil' {α β : Type} {f : α → β} {l : List α} (h : l.map f = []) : l = [] := by
+  cases l with
+  | nil => rfl
+  | cons a t => simp at h
+
+theorem ev_sim (q : Quirks) (cfg : Cfg) (hwf : cfg.wf = true) (ev : Ev) (cL cR : Conn) (st : LogSt)
+    (hI : Inv cL st cR) (es : List REntry) (hes : es.map (·.cmd) = (logEv cfg st ev).1)
+    (hin : inModel ev = true) (hcov : covered cfg st ev = true)
+    (hqL : quietStep cL (evDb cL ev) (evNow ev) = true) (hqR : quietReplay q cR es = true) :
+    Inv (execEv q cL ev) (logEv cfg st ev).2 (replayFrom q cR es) := by
+  have hselw : isWrite cfg.writes "SELECT" = false := by
+    unfold Cfg.wf at hwf
+    unfold isWrite
+    simpa using hwf
+  cases ev with
+  | cmd ve now obs raw =>
+    have hqL' := quietStep_eq hqL
+    simp only [evDb, evNow] at hqL'
+    by_cases hs : nameOf raw = "SELECT"
+    · -- SELECT: connection state only, never an entry
+      have hnw : isWrite cfg.writes (nameOf raw) = false := by rw [hs]; exact hselw
+      simp only [logEv, hnw, Bool.false_eq_true, if_false] at hes ⊢
+      have hnil := map_eq_nil' hes
+      subst hnil
+      simp only [replayFrom, List.foldl_nil]
+      cases ve with
+      | true =>
+        simp only [execEv, hs, and_self, if_true, not_true_eq_false, and_false, if_false]
+        exact ⟨hI.agree, hI.conn, hI.file, hI.lt⟩
+      | false =>
+        simp only [execEv, Bool.false_eq_true, false_and, if_false, hs, not_false_eq_true, and_self, if_true]
+        rw [execRaw_select q cL now obs raw hs]
+        refine ⟨hI.agree, ?_, hI.file, selTarget_lt _ _ hI.lt⟩
+        simp only [hI.conn]
+    · have hexec : execEv q cL (.cmd ve now obs raw) = { cL with store := (KS.step q cL.store cL.cur now (effCmd raw) obs).1 } := by
+        simp only [execEv, hs, and_false, if_false]
+        exact execRaw_not_select q cL now obs raw hs
+      rw [hexec]
+      simp only [covered, hs, false_or, decide_eq_true_eq, Bool.decide_and, Bool.and_eq_true, Bool.decide_eq_true,
+        Bool.not_eq_true', Bool.not_eq_eq_eq_not, Bool.not_true, decide_eq_false_iff_not] at hcov
+      by_cases hw : isWrite cfg.writes (nameOf raw) = true
+      · -- appended before dispatch; replayed in the database it ran in
+        simp only [logEv, hw, if_true, hs, false_and, if_false] at hes ⊢
+        have hnr : effName raw ≠ "SPOP" := by
+          intro h
+          have := hcov.2.1
+          rw [h] at this
+          exact absurd this (by decide)
+        have hdb : cfg.logSelect = true ∨ st.conn = st.file := by
+          rcases hcov.2.2 hw with h | h
+          · exact Or.inl h
+          · exact Or.inr h
+        rw [hI.conn] at hdb hes ⊢
+        have := replay_entries_sim q cfg st cL.cur hI.lt raw hs hnr hdb cL.store now obs hqL' cR hI.file hI.agree es hes hqR
+        exact ⟨this.1, rfl, this.2.symm, hI.lt⟩
+      · -- not in the table: it must be read-only, and then it changed nothing
+        have hw' : isWrite cfg.writes (nameOf raw) = false := by simpa using hw
+        simp only [logEv, hw', Bool.false_eq_true, if_false, hs, false_and] at hes ⊢
+        have hnil := map_eq_nil' hes
+        subst hnil
+        simp only [replayFrom, List.foldl_nil]
+        have hro : ¬ nameOf (effCmd raw) ∈ Spec.writeNames := by
+          rw [nameOf_effCmd]
+          intro hmem
+          have : Spec.writeNames.contains (effName raw) = true := by simpa using hmem
+          exact hw (hcov.1 this)
+        rw [step_readonly q cL.store cL.cur now (effCmd raw) obs hqL' hro]
+        exact ⟨hI.agree, hI.conn, hI.file, hI.lt⟩
+  | wake db now left key =>
+    have hqL' := quietStep_eq hqL
+    simp only [evDb, evNow] at hqL'
+    simp only [covered, Bool.decide_and, Bool.and_eq_true, decide_eq_true_eq, Bool.decide_or, Bool.or_eq_true] at hcov
+    simp only [inModel, decide_eq_true_eq] at hin
+    obtain ⟨hlw, hdb⟩ := hcov
+    simp only [logEv, hlw, if_true] at hes ⊢
+    have hname : nameOf (popCmd left key) = if left then "LPOP" else "RPOP" := nameOf_popCmd left key
+    have hns : nameOf (popCmd left key) ≠ "SELECT" := by rw [hname]; cases left <;> decide
+    have hne : nameOf (popCmd left key) ≠ "EVAL" := by rw [hname]; cases left <;> decide
+    have hun : unwrap (popCmd left key) = none := unwrap_of_name_ne _ hne
+    have heff : effCmd (popCmd left key) = popCmd left key := by unfold effCmd; rw [hun]; rfl
+    have hnr : effName (popCmd left key) ≠ "SPOP" := by
+      unfold effName; rw [hun]; simp only; rw [hname]; cases left <;> decide
+    have := replay_entries_sim q cfg st db hin (popCmd left key) hns hnr hdb cL.store now none hqL' cR hI.file hI.agree es hes hqR
+    rw [heff] at this
+    simp only [execEv]
+    exact ⟨this.1, hI.conn, this.2.symm, hI.lt⟩
+
+theorem quietReplay_append (q : Quirks) (c : Conn) (a b : List REntry) :
+    quietReplay q c (a ++ b) = (quietReplay q c a && quietReplay q (replayFrom q c a) b) := by
+  induction a generalizing c with
+  | nil => simp [quietReplay, replayFrom]
+  | cons e t ih =>
+    simp only [List.cons_append, quietReplay, ih, replayFrom, List.foldl_cons, Bool.and_assoc]
+
+theorem replayFrom_append (q : Quirks) (c : Conn) (a b : List REntry) :
+    replayFrom q c (a ++ b) = replayFrom q (replayFrom q c a) b := by
+  simp [replayFrom, List.foldl_append]
+
+/-- MAIN LEMMA: from agreeing states, a history every event of which the log covers, and any replay of the entries it
+    leaves (at any instants, with any draws) end in agreeing stores — provided no deadline passes on either side. -/
+theorem replay_sim (q : Quirks) (cfg : Cfg) (hwf : cfg.wf = true) :
+    ∀ (h : List Ev) (cL cR : Conn) (st : LogSt) (es : List REntry),
+      Inv cL st cR → es.map (·.cmd) = logFrom cfg st h → (∀ ev ∈ h, inModel ev = true) →
+      coveredFrom cfg st h = true → quietLive q cL h = true → quietReplay q cR es = true →
+      Agree (liveFrom q cL h).store (replayFrom q cR es).store := by
+  intro h
+  induction h with
+  | nil =>
+    intro cL cR st es hI hes _ _ _ _
+    simp only [logFrom] at hes
+    have := map_eq_nil' hes
+    subst this
+    exact hI.agree
+  | cons ev t ih =>
+    intro cL cR st es hI hes hin hcov hqL hqR
+    simp only [logFrom] at hes
+    obtain ⟨es1, es2, rfl, h1, h2⟩ := List.map_eq_append_iff.mp hes
+    simp only [coveredFrom, Bool.and_eq_true] at hcov
+    simp only [quietLive, Bool.and_eq_true] at hqL
+    rw [quietReplay_append, Bool.and_eq_true] at hqR
+    have hI' := ev_sim q cfg hwf ev cL cR st hI es1 h1 (hin ev (by simp)) hcov.1 hqL.1 hqR.1
+    rw [replayFrom_append]
+    simp only [liveFrom, List.foldl_cons]
+    exact ih (execEv q cL ev) (replayFrom q cR es1) (logEv cfg st ev).2 es2 hI' h2
+      (fun e he => hin e (by simp [he])) hcov.2 hqL.2 hqR.2
+
+/-! ## Corollaries used by the property theorems -/
+
+
+theorem inv_init : Inv {} {} {} := ⟨rfl, rfl, rfl, by decide⟩
+
+/-- with SELECT tracking, wake-up logging and a table that contains every mutating name and EVAL, every event
+    except a random write is covered -/
+theorem coveredFrom_fixed (w : List String) (hall : ∀ n ∈ Spec.writeNames, n ∈ w) (heval : "EVAL" ∈ w) :
+    ∀ (h : List Ev) (st : LogSt),
+      (∀ raw, raw ∈ rawsOf h → ¬ Spec.randomWrites.contains (effName raw) = true) →
+      coveredFrom (Cfg.fixed w) st h = true := by
+  intro h
+  induction h with
+  | nil => intro st _; rfl
+  | cons ev t ih =>
+    intro st hr
+    simp only [coveredFrom, Bool.and_eq_true]
+    refine ⟨?_, ih _ (fun raw hraw => hr raw ?_)⟩
+    · cases ev with
+      | cmd ve now obs raw =>
+        simp only [covered, Cfg.fixed, decide_eq_true_eq]
+        by_cases hs : nameOf raw = "SELECT"
+        · exact Or.inl hs
+        · right
+          refine ⟨?_, ?_, fun _ => Or.inl trivial⟩
+          · intro hc
+            have hmem : effName raw ∈ Spec.writeNames := by simpa using hc
+            unfold isWrite
+            simp only [List.contains_eq_mem, decide_eq_true_eq]
+            unfold effName at hmem
+            cases hu : unwrap raw with
+            | none => rw [hu] at hmem; exact hall _ hmem
+            | some inner =>
+              have : nameOf raw = "EVAL" := by
+                unfold unwrap at hu
+                by_cases he : nameOf raw = "EVAL"
+                · exact he
+                · simp [he] at hu
+              rw [this]; exact heval
+          · have := hr raw (by simp [rawsOf])
+            simpa using this
+      | wake db now left key =>
+        simp [covered, Cfg.fixed]
+    · cases ev with
+      | cmd ve now obs raw => simp [rawsOf, hraw]
+      | wake db now left key => simpa [rawsOf] using hraw
 
 end Ferrous.Aof
